@@ -601,14 +601,17 @@ class C19(RebuildProp):
                   "utils.copypath - for 'every place the kernel mutates lies inside the destination' over 17 820 (destination "
                   "pre-state, metafile entry) worlds; five wrong variants (pinned commit, first repair, lexical normalisation, "
                   "parent-only resolution, character-wise prefix) must fail. The same universe, with the model's prediction, is "
-                  "replayed into the real rebuild (M19.impl: places changed on disk = places the model mutates). Conformance: reference-encoded v1 / v2 / hybrid metafiles whose name or "
+                  "replayed into the real rebuild (M19.impl: places changed on disk = places the model mutates). RebuildTxn.tla models one "
+                  "rebuild as a sequence of plain / escaping / failing entries with clean-up variants (OutsideUntouched; the roll-back of every "
+                  "recorded name and the unchecked pinned commit must fail); its 120 entry sequences are replayed too (M19.txn). Conformance: reference-encoded v1 / v2 / hybrid metafiles whose name or "
                   "path components are hostile ('..', '.', absolute, 'a/../../b', chains of '..'), with a matching "
                   "candidate present so that the copy is attempted, are rebuilt under the operation log + guard; TLC "
                   "validates that no mutating operation resolved outside the destination, nothing outside changed and "
                   "nothing was denied by the guard.")
     rule = ("cases = (version, single/dir, hostile value in the name or in each path position, candidate present) + "
             "destinations holding outward symbolic links + copies that cannot succeed into lonely destinations + worlds of "
-            "PathRes.tla (quick: 700 sampled, thorough: all 51 030 world x version); non-trivial = every case")
+            "PathRes.tla (quick: 700 sampled, thorough: all 51 030 world x version) + the 120 entry sequences of RebuildTxn.tla with somebody "
+            "else's file at every escape target + destinations named like the torrent; non-trivial = every case")
 
     def cases(self, tier, rng):
         out = []
